@@ -167,7 +167,13 @@ def write_bam(path, case, reads):
         for r in reads:
             a = pysam.AlignedSegment()
             a.query_name = r["name"]
-            a.query_sequence = "A" * r["len"]
+            # (in a third of the files the reads carry uncalled bases: an aligned N is an aligned base like any other -
+            # seeded change C09q tallied the in-bin bases per nucleotide and so lost the Ns)
+            seq = "A" * r["len"]
+            if case["seed"] % 3 == 0 and r["len"] > 8:
+                k = (r["pos"] * 7 + r["len"]) % (r["len"] - 6)
+                seq = seq[:k] + "N" * 6 + seq[k + 6:]
+            a.query_sequence = seq
             a.flag = r["flag"]
             a.reference_id = r["ci"]
             a.reference_start = r["pos"]
